@@ -2,7 +2,8 @@
 from common import *  # noqa: F401,F403
 
 RULE = ("random curves: Bezier, multi-span, repeated interior knots up to multiplicity degree+1, degree 0, polynomial and rational, scalar and "
-        "vector points, exact rational data.  Non-trivial: degree >= 2 or an interior knot; distinct = distinct curves.")
+        "vector points, exact rational data.  Non-trivial: degree >= 2 or an interior knot; distinct = distinct curves."
+        " Also: integer knot vectors handed over as python ints.")
 EXPLANATION = ("L3: for exact results `rf.map deriv` decides D = dC/du on every span from the polynomial coefficients (quotient rule, cross-multiplied); "
                "where the library computes in float64 (spline difference matrix, D18) the values D(u) are compared with the exact derivative at "
                "2*deg+3 interior points of every span of D to relative 1e-9.  L2: polynomial derivatives vs the model's control points.")
